@@ -87,7 +87,7 @@ GlobalSteps ==
   \cup (IF Live # {} THEN {[op |-> "churn", n |-> IDMod - 1]} ELSE {})
   \cup (IF AnyFree THEN {[op |-> "rawfail", c |-> LowestFree, addr |-> a, hs |-> h, matches |-> FALSE, sentFirst |-> TRUE,
                             login |-> "adm", pw |-> <<9>>, trailing |-> t]
-                             : a \in {x \in Addrs : ~Refused(x)}, h \in {"ok", "badproto", "badsub", "short"}, t \in {0, 2}} ELSE {})
+                             : a \in {x \in Addrs : ~Refused(x)}, h \in {"ok", "badproto", "badsub", "short", "lower", "mixed"}, t \in {0, 2}} ELSE {})
 
 EnabledSteps == {s \in GlobalSteps \cup UNION {StepsOf(c) : c \in Conns} : s.op \in Ops}
 AllSteps == IF EnabledSteps = {} THEN {[op |-> "idle"]} ELSE EnabledSteps   \* keeps random walks going to GenDepth
